@@ -843,11 +843,72 @@ fn mixed_window(sc: &mut Sc, rng: &mut Rng, cls: &[Cl]) -> u64 {
     generated
 }
 
+/// Client 0 falls silent after a little genuine traffic; everything it ever put on the wire (connection request,
+/// connection RESPONSE — handshake packets are outside the replay window —, keep-alives, payloads) is replayed from
+/// its address in every step while the server's clock runs past its timeout; client 1 stays alive. The server must
+/// report the timeout of client 0 at the first `update_client` later than last genuine fresh datagram + timeout.
+fn silent_replay(sc: &mut Sc, rng: &mut Rng, cls: &[Cl]) {
+    let c = &cls[0];
+    let id = c.tok.spec.id;
+    let timeout_us = c.tok.spec.timeout.max(1) as u64 * 1_000_000;
+    let mut rec: Vec<Vec<u8>> = sc.hist.iter().filter(|d| d.from == Src::Cli(c.h)).map(|d| d.bytes.clone()).collect();
+    let response: Option<Vec<u8>> = rec.iter().find(|d| !d.is_empty() && d[0] & 0xf == 3).cloned();
+    for _ in 0..rng.range(0, 2) {
+        if let (_, Some(k)) = sc.opd(&format!("cli-pay {} {}", c.h, hex(&rng.payload(7)))) {
+            let d = sc.hist[k].bytes.clone();
+            sc.op("note expect-payload");
+            sc.op(&format!("srv-rx 0 {} {}", c.addr, hex(&d)));
+            rec.push(d);
+        }
+    }
+    if rng.chance(1, 2) {
+        sc.op("srv-upd 0 250000");
+        sc.op(&format!("cli-upd {} 250000", cls[1].h));
+        if let (_, Some(k)) = sc.opd(&format!("cli-upd {} 250000", c.h)) {
+            let d = sc.hist[k].bytes.clone();
+            sc.op(&format!("srv-rx 0 {} {}", c.addr, hex(&d)));
+            rec.push(d);
+        }
+    }
+    // client 0 is dead from here on
+    let step = rng.pick(&[timeout_us / 2, timeout_us - 100_000, 400_000, 900_000]).max(100_000);
+    let mut total = 0u64;
+    let mut rounds = 0;
+    while total <= timeout_us + 2 * step && rounds < 14 {
+        rounds += 1;
+        total += step;
+        sc.op(&format!("srv-upd 0 {}", step));
+        if let (_, Some(k)) = sc.opd(&format!("cli-upd {} {}", cls[1].h, step)) {
+            let d = sc.hist[k].bytes.clone();
+            sc.op(&format!("srv-rx 0 {} {}", cls[1].addr, hex(&d)));
+        }
+        let n = rng.range(1, 3);
+        for j in 0..n {
+            let d = match (&response, j == 0 && rng.chance(3, 4)) {
+                (Some(r), true) => r.clone(),
+                _ => rng.pick(&rec),
+            };
+            hostile_srv(sc, "hostile", &c.addr, &d);
+        }
+        sc.op("srv-dump 0");
+        let (out, _) = sc.opd(&format!("srv-updc 0 {}", id));
+        if let (_, Some(k)) = sc.opd(&format!("srv-updc 0 {}", cls[1].tok.spec.id)) {
+            let d = sc.hist[k].bytes.clone();
+            sc.op(&format!("cli-rx {} {}", cls[1].h, hex(&d)));
+        }
+        if out.starts_with("disconnected") {
+            break; // (from now on the recorded request would start a new handshake of that address)
+        }
+    }
+    sc.op(&format!("srv-q 0 {}", id));
+}
+
 fn script_session(rng: &mut Rng, tier: Tier, f: &mut dyn FnMut(&str) -> String) {
     let mut sc = Sc::new(f);
     let variant = rng.below(10);
     let bulk = variant < 2;
     let mixed = variant == 2 || variant == 3;
+    let silent = variant == 4;
     let mut budget = if bulk { 420 } else if tier == Tier::Thorough { 90 } else { 70 };
     let srv = setup_server(&mut sc, rng, 3);
     let now_s = srv.now_us / 1_000_000;
@@ -907,6 +968,10 @@ fn script_session(rng: &mut Rng, tier: Tier, f: &mut dyn FnMut(&str) -> String) 
         let n = mixed_window(&mut sc, rng, &cls);
         sent[0] += n;
         budget = sc.n + 30;
+    }
+    if silent {
+        silent_replay(&mut sc, rng, &cls);
+        budget = sc.n;
     }
     while sc.n < budget {
         let c = rng.below(2) as usize;
@@ -2164,7 +2229,7 @@ fn script_wire(rng: &mut Rng, tier: Tier, f: &mut dyn FnMut(&str) -> String) {
 // profile 0: nc-regress — one fixed op list per repaired defect (deterministic, run on every check)
 // =============================================================================================
 
-const REGRESS_CASES: usize = 21;
+const REGRESS_CASES: usize = 22;
 
 fn regress_script(case: usize, f: &mut dyn FnMut(&str) -> String) {
     let mut rng = Rng::new(0xD1CE + case as u64);
@@ -2762,6 +2827,39 @@ fn regress_script(case: usize, f: &mut dyn FnMut(&str) -> String) {
                     sc.op(&format!("srv-rx 0 {} {}", c.addr, hex(&d)));
                 }
                 sc.op("srv-dump 0");
+            }
+        }
+        // a session whose client falls silent; its recorded handshake RESPONSE (outside the replay window), request,
+        // keep-alive and payload are replayed from its address every 2 s: the 5 s timeout is reported all the same
+        21 => {
+            fast_connect(&mut sc, &cls[0]);
+            let req = sc.hist[0].bytes.clone();
+            let resp = sc.hist[2].bytes.clone();
+            let mut rec: Vec<Vec<u8>> = vec![resp.clone(), req];
+            sc.op("srv-upd 0 250000");
+            if let (_, Some(k)) = sc.opd("cli-upd 0 250000") {
+                let d = sc.hist[k].bytes.clone();
+                sc.op(&format!("srv-rx 0 {} {}", cls[0].addr, hex(&d)));
+                rec.push(d);
+            }
+            if let (_, Some(k)) = sc.opd("cli-pay 0 6c617374") {
+                let d = sc.hist[k].bytes.clone();
+                sc.op("note expect-payload");
+                sc.op(&format!("srv-rx 0 {} {}", cls[0].addr, hex(&d)));
+                rec.push(d);
+            }
+            // the last genuine datagram arrived at 5.25 s; silence from here on
+            for round in 0..4 {
+                sc.op("srv-upd 0 2000000");
+                hostile_srv(&mut sc, "hostile", &cls[0].addr.clone(), &resp);
+                let other = rec[(round + 1) % rec.len()].clone();
+                hostile_srv(&mut sc, "hostile", &cls[0].addr.clone(), &other);
+                sc.op("srv-dump 0");
+                let out = sc.op(&format!("srv-updc 0 {}", cls[0].tok.spec.id));
+                sc.op(&format!("srv-q 0 {}", cls[0].tok.spec.id));
+                if out.starts_with("disconnected") {
+                    break;
+                }
             }
         }
         // sequence 2^64-1 (the window's EMPTY sentinel) from the owner of a session
@@ -4457,6 +4555,118 @@ fn oracle_timeouts(ops: &[String], outs: &[String]) -> Option<OracleFail> {
     None
 }
 
+/// C18 (server side, clocks reconstructed from the ops — the implementation's own `recv=` is not consulted):
+/// "a connected peer from which no authentic packet arrived for more than the token's timeout is disconnected at the
+/// next update … forged or replayed packets do not postpone a timeout", and a peer is not timed out before that.
+/// For every session (`connected <id> <addr>` … `disconnected <id>`) of a client whose token was issued in the trace:
+///   hi = latest server time at which a datagram reached the server from <addr> that COULD have refreshed the timer:
+///        the connection itself, or a keep-alive / payload packet that opens under the token's client-to-server key
+///        and whose bytes were not handed to this server from <addr> before in this session (a repeated datagram, a
+///        handshake packet, anything that does not open under the key cannot be a fresh authentic packet);
+///   lo = latest server time at which the peer was certainly heard: the connection, or a datagram answered `payload`.
+///   `srv-updc <id>` must answer `disconnected` when now > hi + timeout, and must not when now <= lo + timeout.
+fn oracle_timeout_not_postponed(ops: &[String], outs: &[String]) -> Option<OracleFail> {
+    struct Sess {
+        addr: String,
+        c2s: [u8; 32],
+        timeout: i32,
+        hi: u128,
+        lo: u128,
+        seen: HashSet<Vec<u8>>,
+        // datagrams from the address since `hi` that cannot have refreshed the timer
+        noise: usize,
+    }
+    struct S {
+        proto: u64,
+        now_ns: u128,
+        sess: HashMap<u64, Sess>,
+    }
+    let tokens = tokens_of(ops, outs, ops.len());
+    let mut servers: HashMap<String, S> = HashMap::new();
+    walk(ops, outs, &mut |i, t, out, input, _| {
+        if t.len() < 2 || out == "panic" || out == "dead" || out == "bad-op" {
+            return None;
+        }
+        match t[0] {
+            "srv-new" if t.len() == 9 && out == "ok" => {
+                servers.insert(t[1].to_string(), S { proto: p_u64(t[4]).unwrap_or(0), now_ns: p_u64(t[2]).unwrap_or(0) as u128 * 1000, sess: HashMap::new() });
+            }
+            "srv-upd" if t.len() == 3 && out == "ok" => {
+                if let Some(s) = servers.get_mut(t[1]) {
+                    s.now_ns += p_u64(t[2]).unwrap_or(0) as u128 * 1000;
+                }
+            }
+            _ => {}
+        }
+        let s = servers.get_mut(t[1])?;
+        if !t[0].starts_with("srv-") {
+            return None;
+        }
+        let o = toks(out);
+        let mut result = None;
+        if t[0] == "srv-rx" && t.len() == 4 {
+            if let Some(d) = input {
+                let now = s.now_ns;
+                let proto = s.proto;
+                if let Some(se) = s.sess.values_mut().find(|se| se.addr == t[2]) {
+                    let fresh = matches!(try_open(d, proto, &se.c2s), Some((4, _, _)) | Some((5, _, _))) && !se.seen.contains(d);
+                    se.seen.insert(d.clone());
+                    if fresh {
+                        se.hi = now;
+                        se.noise = 0;
+                    } else {
+                        se.noise += 1;
+                    }
+                    if o.len() == 3 && o[0] == "payload" {
+                        se.hi = now;
+                        se.lo = now;
+                    }
+                }
+                if o.len() == 5 && o[0] == "connected" {
+                    if let Some(id) = p_u64(o[1]) {
+                        s.sess.remove(&id);
+                        if let Some(k) = tokens.iter().find(|k| k.id == id && matches!(try_open(d, proto, &k.c2s), Some((3, _, _)))) {
+                            s.sess.insert(id, Sess { addr: o[2].to_string(), c2s: k.c2s, timeout: k.timeout, hi: now, lo: now, seen: HashSet::new(), noise: 0 });
+                        }
+                    }
+                }
+            }
+        }
+        if t[0] == "srv-updc" && t.len() == 3 {
+            if let (Some(id), now) = (p_u64(t[2]), s.now_ns) {
+                if let Some(se) = s.sess.get(&id) {
+                    let fired = o.first() == Some(&"disconnected");
+                    let t_ns = se.timeout.max(0) as u128 * 1_000_000_000;
+                    if se.timeout > 0 && now > se.hi + t_ns && !fired {
+                        let sig = if se.noise > 0 { "timeout-postponed-by-replay:server" } else { "timeout-missed:server" };
+                        result = fail(
+                            i,
+                            sig,
+                            format!(
+                                "client {} at {}: the last datagram that can have been a fresh authentic one arrived at {} ns, timeout {} s, now {} ns: update_client did not report the timeout ({} replayed / unauthentic datagram(s) from its address since then)",
+                                id, se.addr, se.hi, se.timeout, now, se.noise
+                            ),
+                        );
+                    }
+                    if fired && (se.timeout <= 0 || now <= se.lo + t_ns) {
+                        result = fail(
+                            i,
+                            "timeout-early:server",
+                            format!("client {} at {} was certainly heard at {} ns, timeout {} s, now {} ns: update_client reported a timeout", id, se.addr, se.lo, se.timeout, now),
+                        );
+                    }
+                }
+            }
+        }
+        if o.len() >= 3 && o[0] == "disconnected" {
+            if let Some(id) = p_u64(o[1]) {
+                s.sess.remove(&id);
+            }
+        }
+        result
+    })
+}
+
 /// C18 (progress): where the script knows a handshake must complete, it does
 fn oracle_expect_connected(ops: &[String], outs: &[String]) -> Option<OracleFail> {
     for i in 0..ops.len() {
@@ -4870,6 +5080,7 @@ pub fn oracles() -> Vec<Oracle> {
         Oracle { prop: "C18", name: "nc-failover-tries-all", engines: &["nc-failover", "nc-handshake", "nc-regress"], check: oracle_failover_tries_all },
         Oracle { prop: "C19", name: "nc-silent-to-invalid", engines: &["nc-handshake", "nc-attacker", "nc-hostile", "nc-session", "nc-regress", "nc-failover", "nc-known"], check: oracle_silent_to_invalid },
         Oracle { prop: "C05", name: "nc-silent-to-invalid", engines: &["nc-handshake", "nc-attacker", "nc-regress", "nc-table-full"], check: oracle_silent_to_invalid },
+        Oracle { prop: "C18", name: "nc-timeout-not-postponed", engines: &["nc-handshake", "nc-session", "nc-regress", "nc-failover"], check: oracle_timeout_not_postponed },
         Oracle { prop: "C18", name: "nc-timeouts-exact", engines: &["nc-handshake", "nc-session", "nc-hostile", "nc-regress"], check: oracle_timeouts },
     ]
 }
